@@ -132,7 +132,9 @@ type summary struct {
 	Worker     int                    `json:"worker"`
 	Runs       int                    `json:"runs"`
 	Nontrivial int                    `json:"nontrivial"`
-	Digests    []string               `json:"digests"`
+	Scenarios  int                    `json:"scenarios"`
+	Keys       []uint64               `json:"keys"`
+	KeyCount   int                    `json:"key_count"`
 	Schedules  []uint64               `json:"schedules"`
 	Steps      uint64                 `json:"steps"`
 	Ops        int                    `json:"ops"`
@@ -246,7 +248,8 @@ func main() {
 
 	// ---- merge ----
 	total := &summary{Counters: map[string]int{}, KnownSeen: map[string]int{}, Extra: map[string]interface{}{}}
-	digests := map[string]bool{}
+	digests := map[uint64]bool{}
+	overflow := 0
 	scheds := map[uint64]bool{}
 	var viol []violation
 	for _, s := range sums {
@@ -259,7 +262,11 @@ func main() {
 		for k, v := range s.KnownSeen {
 			total.KnownSeen[k] += v
 		}
-		for _, d := range s.Digests {
+		total.Scenarios += s.Scenarios
+		if len(s.Keys) == 0 && s.KeyCount > 0 {
+			overflow += s.KeyCount // too many to ship: counted per worker (workers explore disjoint seed ranges)
+		}
+		for _, d := range s.Keys {
 			digests[d] = true
 		}
 		for _, d := range s.Schedules {
@@ -334,7 +341,8 @@ func main() {
 	if !*noEvidence {
 		cov := map[string]interface{}{
 			"evaluations":         total.Runs,
-			"distinct_nontrivial": len(digests),
+			"distinct_nontrivial": len(digests) + overflow,
+			"scenarios":           total.Scenarios,
 			"rule":                pc.rule,
 			"samples":             total.Samples,
 			"logical_steps_total": total.Steps,
@@ -388,7 +396,7 @@ func main() {
 		}
 	}
 	fmt.Printf("vcheck %s %s: %d scenarios (%d distinct non-trivial), %d logical steps, %d schedules, %.1fs, violations=%d known=%d exit=%d\n",
-		*prop, *tier, total.Runs, len(digests), total.Steps, len(scheds), wall, confirmed, len(total.KnownSeen), exit)
+		*prop, *tier, total.Runs, len(digests)+overflow, total.Steps, len(scheds), wall, confirmed, len(total.KnownSeen), exit)
 	cleanup()
 	os.Exit(exit)
 }
